@@ -1,5 +1,6 @@
 (* Driver for the extracted M-TX model: scenarios of `atlas migrate apply`
    invocations (optionally crashing at a named point) on one database. *)
+type str = string
 open Model
 
 let rec nat_of_int i = if i <= 0 then O else S (nat_of_int (i - 1))
@@ -9,42 +10,44 @@ let n_of_int i = if i = 0 then N0 else Npos (pos_of_int i)
 let rec int_of_pos = function XH -> 1 | XO p -> 2 * int_of_pos p | XI p -> 2 * int_of_pos p + 1
 let int_of_n = function N0 -> 0 | Npos p -> int_of_pos p
 
-let bytes_of_string (s : string) : bytes =
+let bytes_of_string (s : str) : bytes =
   Stdlib.List.init (String.length s) (fun i -> n_of_int (Char.code s.[i]))
-let string_of_bytes (b : bytes) : string =
+let string_of_bytes (b : bytes) : str =
   String.concat "" (Stdlib.List.map (fun x -> String.make 1 (Char.chr (int_of_n x))) b)
-let unhex (h : string) : string =
+let unhex (h : str) : str =
   if h = "-" then "" else
   String.init (String.length h / 2) (fun i -> Char.chr (int_of_string ("0x" ^ String.sub h (2 * i) 2)))
-let hex (s : string) : string =
+let hex (s : str) : str =
   if s = "" then "-" else String.concat "" (Stdlib.List.init (String.length s) (fun i -> Printf.sprintf "%02x" (Char.code s.[i])))
-let hs (b : bytes) : string = Sha256.hs (string_of_bytes b)
-let heq (a : string) (b : string) = (a = b)
+let hs (b : bytes) : str = Sha256.hs (string_of_bytes b)
+let heq (a : str) (b : str) = (a = b)
 let b2s b = if b then "1" else "0"
 
 (* journal entry = the number between parentheses of the statement text *)
-let stmt_id (s : string) : string =
+let stmt_id (s : str) : str =
   try
     let i = String.index s '(' and j = String.index s ')' in
     String.sub s (i + 1) (j - i - 1)
   with Not_found -> "?"
 
-let show_rev (r : string rev) =
+let show_rev (r : str rev) =
   Printf.sprintf "%s:%d:%d:%d:%s:%d" (string_of_bytes r.r_version) (int_of_nat r.r_applied) (int_of_nat r.r_total)
     (Stdlib.List.length r.r_hashes) (b2s r.r_err) (int_of_n r.r_kind)
 
-let show_db (d : string db) =
+let show_db (d : str db) =
   Printf.sprintf "journal=[%s] revs=[%s]"
     (String.concat "," (Stdlib.List.map (fun s -> stmt_id (string_of_bytes s)) d.d_journal))
     (String.concat " " (Stdlib.List.map show_rev (read_revisions d.d_tbl)))
 
-let point_name = function
-  | BeforeExec -> "before-exec" | AfterExec -> "after-exec" | BeforeWrite -> "before-write"
-  | AfterWrite -> "after-write" | BeforeCommit -> "before-commit" | AfterCommit -> "after-commit"
-let point_of = function
-  | "before-exec" -> BeforeExec | "after-exec" -> AfterExec | "before-write" -> BeforeWrite
-  | "after-write" -> AfterWrite | "before-commit" -> BeforeCommit | "after-commit" -> AfterCommit
-  | s -> failwith ("point " ^ s)
+(* names of the crash points: the extracted Exec/CrashPointsModel.v (Coq strings -> OCaml) *)
+let char_of_ascii (Ascii (b0, b1, b2, b3, b4, b5, b6, b7)) =
+  let bit b i = if b then 1 lsl i else 0 in
+  Char.chr (bit b0 0 + bit b1 1 + bit b2 2 + bit b3 3 + bit b4 4 + bit b5 5 + bit b6 6 + bit b7 7)
+let rec ostring = function EmptyString -> "" | String (a, r) -> Stdlib.String.make 1 (char_of_ascii a) ^ ostring r
+let point_name p = ostring (Model.point_name p)
+let point_of s =
+  match Stdlib.List.find_opt (fun p -> point_name p = s) all_points with
+  | Some p -> p | None -> failwith ("point " ^ s)
 
 let toks = ref [||]
 let pos = ref 0
@@ -87,7 +90,7 @@ let starts_with p s = String.length s >= String.length p && String.sub s 0 (Stri
 (* what PRAGMA foreign_key_check reports for a set of effects: measured by the harness with an
    independent client for the initial database and for each statement that touches the FK tables
    (at most one of them is ever present): the set of the last such statement, else the initial one *)
-let violations_of pre (special : (string * (string * violation list)) list) (j : bytes list) : violation list =
+let violations_of pre (special : (str * (str * violation list)) list) (j : bytes list) : violation list =
   Stdlib.List.fold_left (fun acc s ->
     match Stdlib.List.assoc_opt (string_of_bytes s) special with Some (_, vs) -> vs | None -> acc) pre j
 
@@ -153,9 +156,10 @@ let run_dry_line id =
       let dirty = next () = "1" in
       let dir = parse_dir () in
       let cf = { c_order = Linear; c_baseline = baseline; c_allow_dirty = allow; c_dirty = dirty } in
-      let (o, d') = migrate_apply heq hs dry mode (nat_of_int n) cf dir !st in
+      let (o, d') = migrate_apply_cmd heq hs dry mode (nat_of_int n) cf dir !st in
       st := d';
-      Printf.printf "%s step%d exit=%s table=%s %s\n" id i (show_exit o) (b2s d'.cd_revtable) (show_db d'.cd_db)
+      let ex = match o with CmdFlagsExclusive -> "fail" | Cmd o -> show_exit o in
+      Printf.printf "%s step%d exit=%s table=%s %s\n" id i ex (b2s d'.cd_revtable) (show_db d'.cd_db)
     done
   | "S" ->
     let txmode = mode_of (next ()) in
@@ -171,12 +175,71 @@ let run_dry_line id =
   | "V" -> decr pos; run_fk_line id
   | t -> failwith ("dry line kind " ^ t)
 
+(* lock stage (LockModel.v): "L nsteps {P e|i <expiry> | R now timeout mode n crash k dir}" |
+   "C tA TA tB TB mode n before-exec k dir" *)
+let show_lock = function None -> "none" | Some None -> "invalid" | Some (Some _) -> "held"
+let show_cout = function
+  | CLockTaken -> "locktaken" | CLockInvalid -> "lockinvalid" | CCrashed -> "crash"
+  | CUnlockErr _ -> "unlockerr" | CRan o -> show_exit o
+let run_lock_line id =
+  match next () with
+  | "L" ->
+    let nsteps = next_int () in
+    let st = ref (None, { d_journal = []; d_tbl = [] }) in
+    for i = 0 to nsteps - 1 do
+      match next () with
+      | "P" ->
+        let kind = next () in
+        let e = next_int () in
+        st := ((if kind = "i" then Some None else Some (Some (n_of_int e))), snd !st);
+        Printf.printf "%s step%d exit=planted lock=%s %s\n" id i (show_lock (fst !st)) (show_db (snd !st))
+      | "R" ->
+        let now = next_int () in
+        let timeout = next_int () in
+        let mode = mode_of (next ()) in
+        let n = next_int () in
+        let crash = next () in
+        let k = next_int () in
+        let dir = parse_dir () in
+        let cr = match crash with "-" -> CNo | "acquire" -> CInAcquire | p -> CAt (point_of p, nat_of_int k) in
+        let (o, s') = locked_apply heq hs (n_of_int now) (n_of_int timeout) cr mode (nat_of_int n) dir !st in
+        st := s';
+        Printf.printf "%s step%d exit=%s lock=%s %s\n" id i (show_cout o) (show_lock (fst s')) (show_db (snd s'))
+      | t -> failwith ("lock step kind " ^ t)
+    done
+  | "C" ->
+    let ta = next_int () in let tta = next_int () in let tb = next_int () in let ttb = next_int () in
+    let _mode = next () in
+    let n = next_int () in
+    let crash = next () in
+    let k = next_int () in
+    let dir = parse_dir () in
+    let d0 = { d_journal = []; d_tbl = [] } in
+    let ((_, _), tr) = apply_run heq hs TxNone (nat_of_int n) dir d0 in
+    (match crash_state tr (point_of crash) (nat_of_int k) with
+     | None -> Printf.printf "%s unreachable\n" id
+     | Some dc ->
+       let la = Some (Some (n_of_int (ta + tta))) in
+       let (ob, (lb, db)) = locked_apply heq hs (n_of_int tb) (n_of_int ttb) CNo TxNone (nat_of_int n) dir (la, dc) in
+       Printf.printf "%s B exit=%s lock=%s %s\n" id (show_cout ob) (show_lock lb) (show_db db);
+       (match concurrent_apply heq hs (n_of_int ta) (n_of_int tta) (n_of_int tb) (n_of_int ttb) (point_of crash) (nat_of_int k) (nat_of_int n) dir d0 with
+        | Some ((oa, _), (l, d)) -> Printf.printf "%s A exit=%s lock=%s %s\n" id (show_cout oa) (show_lock l) (show_db d)
+        | None -> Printf.printf "%s unreachable\n" id))
+  | t -> failwith ("lock line kind " ^ t)
+
 let () =
+  let lock_stage = Array.length Sys.argv > 1 && Sys.argv.(1) = "lock" in
   let dry_stage = Array.length Sys.argv > 1 && Sys.argv.(1) = "dry" in
   let fk_stage = Array.length Sys.argv > 1 && Sys.argv.(1) = "fk" in
   (try
     while true do
       let line = input_line stdin in
+      if line <> "" && lock_stage then begin
+        toks := Array.of_list (Stdlib.List.filter (fun s -> s <> "") (String.split_on_char ' ' line));
+        pos := 0;
+        let id = next () in
+        run_lock_line id
+      end else
       if line <> "" && fk_stage then begin
         toks := Array.of_list (Stdlib.List.filter (fun s -> s <> "") (String.split_on_char ' ' line));
         pos := 0;
@@ -196,12 +259,17 @@ let () =
         let nsteps = next_int () in
         let db = ref { d_journal = []; d_tbl = [] } in
         for i = 0 to nsteps - 1 do
-          let mode = mode_of (next ()) in
+          let mtok = next () in
+          let (mode, ord) = match String.split_on_char '/' mtok with
+            | [m] -> (mode_of m, Linear)
+            | [m; "linear-skip"] -> (mode_of m, LinearSkip)
+            | [m; "non-linear"] -> (mode_of m, NonLinear)
+            | _ -> failwith ("mode " ^ mtok) in
           let n = next_int () in
           let crash = next () in
           let k = next_int () in
           let dir = parse_dir () in
-          let ((o, d'), tr) = apply_run heq hs mode (nat_of_int n) dir !db in
+          let ((o, d'), tr) = apply_run_ord heq hs ord mode (nat_of_int n) dir !db in
           let normal () =
             let ex = match o with
               | ADone -> "ok" | APend PNoPending -> "ok" | AFail _ -> "fail" | ADirective -> "fail" | APend _ -> "fail" in
